@@ -411,12 +411,43 @@ pub fn run_history(history: usize, n: usize, mode: usize, stride: usize, seed: u
             // and handed over are as legitimate an operation history as any; whatever ties a
             // node's priority to the thread that created it shows up here
             let chunk = [8usize, 50, 200, 2000][(seed % 4) as usize].min(n.max(1));
+            // how the workers are named (a pool usually gives all its threads one name, or a
+            // numbered one) and whether this thread has a long history of draws behind it before
+            // the first worker starts (anything keyed on "draws so far" or on the thread's name)
+            let naming = (seed / 4) % 3;
+            let pre_draws: u64 = [0, 0, (1 << 16) + 3, (1 << 20) + 5][((seed / 12) % 4) as usize];
+            for _ in 0..pre_draws {
+                let node = TreapNode::new(0u8);
+                std::hint::black_box(&node);
+            }
+            f.draws += pre_draws;
             let mut key = 0u32;
+            let mut chunk_no = 0usize;
             while (key as usize) < n && violation.is_none() {
                 let len = chunk.min(n - key as usize);
                 let start = key;
+                chunk_no += 1;
+                if pre_draws > 0 && chunk_no % 4 == 0 {
+                    // every fourth piece is built by this thread itself
+                    let mut p: Treap<Plain> = Treap::new();
+                    for j in 0..len {
+                        let at = p.size();
+                        p.insert_at(at, Plain::new(start + j as u32));
+                    }
+                    key += len as u32;
+                    inserted += p.size();
+                    last_pos = t.size();
+                    t = Treap::merge(std::mem::replace(&mut t, Treap::new()), p);
+                    checkpoint!(t, false);
+                    continue;
+                }
                 let (mode_c, stride_c, fseed) = (f.mode, f.stride, seed ^ key as u64);
-                let (piece, draws) = std::thread::Builder::new()
+                let builder = match naming {
+                    0 => std::thread::Builder::new(),
+                    1 => std::thread::Builder::new().name("worker".to_string()),
+                    _ => std::thread::Builder::new().name(format!("worker-{}", chunk_no)),
+                };
+                let (piece, draws) = builder
                     .stack_size(64 << 20)
                     .spawn(move || {
                         let mut g = Foreign { mode: mode_c, stride: stride_c, rng: Rng::new(fseed), draws: 0 };
